@@ -49,6 +49,13 @@ Proof.
   apply G2. left. exact H.
 Qed.
 
+(* a pending timer (slot ACTIVE) has its heap entry, and only pending timers have one *)
+Lemma active_timer_on_heap : forall f beh h rnd i t, fx_sigdel f = true -> good_rand rnd ->
+  nth_error (timers (run_history_fx f beh h rnd)) i = Some t -> (t_exp t <> None <-> t_state t = Active).
+Proof.
+  intros f beh h rnd i t F G N. pose proof (run_history_inv f beh h rnd F G) as (_ & (T1 & _) & _). exact (T1 i t N).
+Qed.
+
 (* ------------------------------------------------------------------ what the delete calls log when they return 0 *)
 Lemma job_del_logs : forall p key st, fst (job_del p key st) = 0 ->
   exists u k, out (snd (job_del p key st)) = EvDel 0 u :: out st /\ k = key /\
